@@ -270,7 +270,7 @@ package mocker
 //@   ensures recorded: m.imp == callback
 //@   ensures table_kept: patch.table_inv() && !patch.locked()
 //@   panics_only_if rejected: true
-//@   ensures_on_panic nothing_left_diverted_or_only_the_bookkeeping_failed: patch.table_inv() && !patch.locked()
+//@   ensures_on_panic nothing_left_diverted: patch.panic_frame() && patch.table_inv() && !patch.locked()
 
 //@ func (m *MethodMocker) doApply
 //@   props C12 C01 C02
@@ -285,6 +285,7 @@ package mocker
 //@     | && diverted_to(unbox(m.baseMocker.guard, *patchMockGuard).patchGuard, rt_method_func(rt_of(typeof(m.structDef)), m.method), m.baseMocker.imp)
 //@   ensures table_kept: patch.table_inv() && !patch.locked()
 //@   panics_only_if rejected: true
+//@   ensures_on_panic rejected_configuration_leaves_unmocked_targets_alone: patch.panic_frame()
 
 //@ func (m *MethodMocker) Apply
 //@   props C12 C01
@@ -299,6 +300,7 @@ package mocker
 //@   ensures callback_installed_as_given_unless_debug_wrapped: m.baseMocker.imp == callback || logger.ConsoleLevel >= logger.DebugLevel
 //@   ensures patch_state_kept: patch.table_inv() && !patch.locked()
 //@   panics_only_if configuration_rejected: true
+//@   ensures_on_panic rejected_configuration_leaves_unmocked_targets_alone: patch.panic_frame()
 
 // the "-fm" (method value) path resolves the target by symbol name: the lookup is C10's, the rest as above
 //@ trusted func (m *baseMocker) applyByName
@@ -311,6 +313,7 @@ package mocker
 //@     | && diverted_somewhere(unbox(m.guard, *patchMockGuard).patchGuard, callback)
 //@   ensures table_kept: patch.table_inv() && !patch.locked()
 //@   may_panic
+//@   ensures_on_panic rejected_configuration_leaves_unmocked_targets_alone: patch.panic_frame()
 
 // installing an implementation on the target: whatever path is taken the mocker records what it installed, and on the
 // ordinary path (not a method value) the target's entry window is diverted to it (C01 mechanism, end to end from
@@ -329,6 +332,7 @@ package mocker
 //@     | && (!old(resolved_by_name(m.funcDef)) ==> patch.is_target_of(unbox(m.baseMocker.guard, *patchMockGuard).patchGuard.origin, old(proxy.func_target(m.funcDef))))
 //@   ensures table_kept: patch.table_inv() && !patch.locked()
 //@   panics_only_if rejected: true
+//@   ensures_on_panic rejected_configuration_leaves_unmocked_targets_alone: patch.panic_frame()
 
 //@ trusted func CreateWhen
 //@   props C12
@@ -368,6 +372,7 @@ package mocker
 //@   ensures callback_installed_as_given_unless_debug_wrapped: m.baseMocker.imp == callback || logger.ConsoleLevel >= logger.DebugLevel
 //@   ensures patch_state_kept: patch.table_inv() && !patch.locked()
 //@   panics_only_if configuration_rejected: true
+//@   ensures_on_panic rejected_configuration_leaves_unmocked_targets_alone: patch.panic_frame()
 
 //@ func (m *DefMocker) Return
 //@   props C12 C01
@@ -385,6 +390,7 @@ package mocker
 //@     | && (!old(resolved_by_name(m.funcDef)) ==> patch.is_target_of(unbox(m.baseMocker.guard, *patchMockGuard).patchGuard.origin, old(proxy.func_target(m.funcDef))))
 //@   ensures patch_state_kept: patch.table_inv() && !patch.locked()
 //@   panics_only_if configuration_rejected: true
+//@   ensures_on_panic rejected_configuration_leaves_unmocked_targets_alone: patch.panic_frame()
 
 // ---- C12: a package override given with Pkg applies to the next lookup only ------------------------------------------------
 // caller_package(): the package of the code that called into the builder (runtime.Caller-derived; uninterpreted).
@@ -529,3 +535,57 @@ package mocker
 //@   ensures follows_the_shared_context: result == m.ctx.p.canceled
 //@ extern func (github.com/tencent/goom.UnExportedMocker).Canceled
 //@   assigns nothing
+
+// ---- C13: a rejected configuration never leaves a target mocked that was not mocked before ---------------------------------
+// Every builder validates (CreateWhen, When.Return/Returns/When: may panic) BEFORE it installs the stub; whatever panics,
+// only entry windows of targets that were already patched may differ from the text at entry.
+//@ func (m *DefMocker) Returns
+//@   props C13 C12
+//@   requires receiver: m != nil && m.baseMocker != nil
+//@   requires patch_state: patch_state_ok()
+//@   assigns m.baseMocker.when, m.baseMocker.guard, m.baseMocker.imp, m.baseMocker.funcDef, running[m.baseMocker], stub_of[m.baseMocker], textmem, perm, mapof(patch.patches), anyfield(patch.patch, guard), anyfield(patch.Guard, applied),
+//@     | mutex_held[addr(patch.patchesLock)], rw_wheld[addr(memory.memoryAccessLock)], rw_rheld[addr(memory.memoryAccessLock)], placeholder_target[m.baseMocker.origin], varval, anyfield(When, matches), anyfield(When, defaultReturns), anyfield(When, curMatch), anyfield(BaseMatcher, results)
+//@   ensures patch_state_kept: patch.table_inv() && !patch.locked()
+//@   panics_only_if configuration_rejected: true
+//@   ensures_on_panic rejected_configuration_leaves_unmocked_targets_alone: patch.panic_frame()
+
+//@ func (m *DefMocker) When
+//@   props C13 C12
+//@   requires receiver: m != nil && m.baseMocker != nil
+//@   requires patch_state: patch_state_ok()
+//@   assigns m.baseMocker.when, m.baseMocker.guard, m.baseMocker.imp, m.baseMocker.funcDef, running[m.baseMocker], stub_of[m.baseMocker], textmem, perm, mapof(patch.patches), anyfield(patch.patch, guard), anyfield(patch.Guard, applied),
+//@     | mutex_held[addr(patch.patchesLock)], rw_wheld[addr(memory.memoryAccessLock)], rw_rheld[addr(memory.memoryAccessLock)], placeholder_target[m.baseMocker.origin], varval, anyfield(When, matches), anyfield(When, defaultReturns), anyfield(When, curMatch), anyfield(BaseMatcher, results)
+//@   ensures patch_state_kept: patch.table_inv() && !patch.locked()
+//@   panics_only_if configuration_rejected: true
+//@   ensures_on_panic rejected_configuration_leaves_unmocked_targets_alone: patch.panic_frame()
+
+//@ func (m *MethodMocker) Return
+//@   props C13 C12
+//@   requires receiver: m != nil && m.baseMocker != nil && m.structDef != nil
+//@   requires patch_state: patch_state_ok()
+//@   assigns m.baseMocker.when, m.baseMocker.guard, m.baseMocker.imp, m.baseMocker.funcDef, running[m.baseMocker], stub_of[m.baseMocker], textmem, perm, mapof(patch.patches), anyfield(patch.patch, guard), anyfield(patch.Guard, applied),
+//@     | mutex_held[addr(patch.patchesLock)], rw_wheld[addr(memory.memoryAccessLock)], rw_rheld[addr(memory.memoryAccessLock)], placeholder_target[m.baseMocker.origin], varval, anyfield(When, matches), anyfield(When, defaultReturns), anyfield(When, curMatch), anyfield(BaseMatcher, results)
+//@   ensures patch_state_kept: patch.table_inv() && !patch.locked()
+//@   panics_only_if configuration_rejected: true
+//@   ensures_on_panic rejected_configuration_leaves_unmocked_targets_alone: patch.panic_frame()
+
+//@ func (m *MethodMocker) Returns
+//@   props C13 C12
+//@   requires receiver: m != nil && m.baseMocker != nil && m.structDef != nil
+//@   requires patch_state: patch_state_ok()
+//@   assigns m.baseMocker.when, m.baseMocker.guard, m.baseMocker.imp, m.baseMocker.funcDef, running[m.baseMocker], stub_of[m.baseMocker], textmem, perm, mapof(patch.patches), anyfield(patch.patch, guard), anyfield(patch.Guard, applied),
+//@     | mutex_held[addr(patch.patchesLock)], rw_wheld[addr(memory.memoryAccessLock)], rw_rheld[addr(memory.memoryAccessLock)], placeholder_target[m.baseMocker.origin], varval, anyfield(When, matches), anyfield(When, defaultReturns), anyfield(When, curMatch), anyfield(BaseMatcher, results)
+//@   ensures patch_state_kept: patch.table_inv() && !patch.locked()
+//@   panics_only_if configuration_rejected: true
+//@   ensures_on_panic rejected_configuration_leaves_unmocked_targets_alone: patch.panic_frame()
+
+//@ func (m *MethodMocker) When
+//@   props C13 C12
+//@   requires receiver: m != nil && m.baseMocker != nil && m.structDef != nil
+//@   requires patch_state: patch_state_ok()
+//@   assigns m.baseMocker.when, m.baseMocker.guard, m.baseMocker.imp, m.baseMocker.funcDef, running[m.baseMocker], stub_of[m.baseMocker], textmem, perm, mapof(patch.patches), anyfield(patch.patch, guard), anyfield(patch.Guard, applied),
+//@     | mutex_held[addr(patch.patchesLock)], rw_wheld[addr(memory.memoryAccessLock)], rw_rheld[addr(memory.memoryAccessLock)], placeholder_target[m.baseMocker.origin], varval, anyfield(When, matches), anyfield(When, defaultReturns), anyfield(When, curMatch), anyfield(BaseMatcher, results)
+//@   ensures patch_state_kept: patch.table_inv() && !patch.locked()
+//@   panics_only_if configuration_rejected: true
+//@   ensures_on_panic rejected_configuration_leaves_unmocked_targets_alone: patch.panic_frame()
+
